@@ -265,6 +265,28 @@ class Shape:
             return outer
 
         block(fn.body, make_sinks(me["items"]))
+        me["unlocked"] = self._unlocked(fn)
+
+    def _unlocked(self, fn):
+        """private attributes of self (the lifecycle's state; the lock itself and method names aside) that the method mentions -
+        reads or writes - OUTSIDE every `with self._lock:` region of its own body, sorted.  What a self-method called outside
+        a region mentions is added on the Lean side through the call items (`exposed`)."""
+        out = set()
+
+        def rec(n):
+            if self._is_lock_with(n):
+                for it in n.items:
+                    if not _is_self_attr(it.context_expr, LOCKATTR):
+                        rec(it.context_expr)
+                return
+            if (_is_self_attr(n) and n.attr.startswith("_") and not n.attr.startswith("__") and n.attr != LOCKATTR
+                    and n.attr not in self.fns):
+                out.add(n.attr)
+            for c in ast.iter_child_nodes(n):
+                rec(c)
+        for st in fn.body:
+            rec(st)
+        return sorted(out)
 
     # ----------------------------------------------------------------------------------------------------
     def ordered(self):
@@ -442,6 +464,7 @@ def render_locks(sh: Shape) -> str:
     order = sh.ordered() if sh.methods else []
     idx = {n: i for i, n in enumerate(order)}
     rows = []
+    urows = []
     for n in order:
         m = sh.methods[n]
         items = []
@@ -451,6 +474,7 @@ def render_locks(sh: Shape) -> str:
             else:
                 items.append(f"(false, [{idx[x]}])")
         rows.append(f'  ("{n}", {"true" if m["public"] else "false"}, {m["loops"]}, [' + ", ".join(items) + "])")
+        urows.append(f'  ("{n}", [' + ", ".join(f'"{a}"' for a in m.get("unlocked", [])) + "])")
     why = "; ".join(sh.why)[:400].replace("-/", "- /")
     return (
         "/- GENERATED by harness/vf/extract/e3_telomere.py from operon_ai/state/telomere.py on every run; do not edit.\n"
@@ -460,7 +484,10 @@ def render_locks(sh: Shape) -> str:
         f"/-- false: the analysis met something it does not understand ({why or 'nothing'}) -/\n"
         f"def recognised : Bool := {'true' if sh.ok else 'false'}\n\n"
         "def methods : List (String × Bool × Nat × List (Bool × List Nat)) := [\n"
-        + ",\n".join(rows) + "\n]\n\nend Operon.Gen.TelomereLocks\n")
+        + ",\n".join(rows) + "\n]\n\n"
+        "/-- per method: the private attributes of self (state) it mentions OUTSIDE every `with self._lock` region of its own body -/\n"
+        "def unlocked : List (String × List String) := [\n"
+        + ",\n".join(urows) + "\n]\n\nend Operon.Gen.TelomereLocks\n")
 
 
 def render_consts(ok: bool, vals: dict, sig: dict = None, log: dict = None) -> str:
